@@ -13,19 +13,20 @@ LEVEL = 'fault_enumeration'
 SHARDS = {'quick': 8, 'thorough': 16}
 TIMEOUT = {'quick': 300, 'thorough': 3000}
 N_HIST = {'quick': 480, 'thorough': 30000}
+N_BIG = {'quick': 8, 'thorough': 400}           # scale regime: 100-300 ids, ~4 operations per id
 RULE = ('cases: seeded histories of 15-30 add/remove/lookup ops over a universe of 6-10 agent objects sharing 4-6 ids (distinct '
         'objects with one id) carrying component subsets, in a plain Environment, a continuous SpaceWorld and grid worlds '
         '(DiscreteWorld/LineWorld/GridWorld) with extents mixing 0 and >=1 (continuous also fractional extents below 1); after EVERY op all accessors are compared with the '
         'ordered-dict model and every error path is injected (duplicate add with the same object / an impostor, unknown-id '
         'remove and strict lookup, non-strict lookup, out-of-bounds placement on each positive axis and side, out-of-bounds with '
-        'a taken id), each bracketed by a full-state snapshot. Non-trivial: history with a removal from the middle, a re-add '
+        'a taken id), each bracketed by a full-state snapshot; plus a scale regime (100-300 ids, hundreds of add/remove/re-add operations, accessors compared after each). Non-trivial: history with a removal from the middle, a re-add '
         'after removal under a colliding id, and >=1 probe of every error-path kind applicable to the world; distinct by '
         '(world kind, extents, op trace).')
 ASSUMPTIONS = ['agents\' component sets are not modified while resident (C03\'s dimension)',
                'an out-of-bounds placement may raise any Exception subclass other than DuplicateAgentError (the documented error is a bare Exception)',
                'snapshots read documented public attributes']
 FLOORS = {'quick': {'probe_dup_same': 3000, 'probe_dup_impostor': 3000, 'probe_remove_unknown': 3000, 'probe_strict_unknown': 3000,
-                    'probe_oob': 5000, 'probe_oob_taken_id': 500, 'middle_removals': 400, 'edge_placements': 200,
+                    'probe_oob': 5000, 'probe_oob_taken_id': 500, 'middle_removals': 400, 'big_environments': 4, 'big_ops': 1000, 'edge_placements': 200,
                     'accessor_comparisons': 5000, 'rejected_agent_without_position': 5000, 'contract:Environment.registry': 50000, 'contract:SpaceWorld.containment': 50000,
                     'reach:Core.Environment.add_agent': 5000, 'reach:Environments.SpaceWorld.add_agent': 5000},
           'thorough': {'probe_oob': 300000, 'probe_dup_impostor': 150000, 'accessor_comparisons': 500000}}
@@ -255,8 +256,92 @@ def case_history(ctx, case):
         ctx.sample({'kind': 'history', 'i': case['i'], 'world': kind, 'extents': ext, 'trace': trace[:12]})
 
 
+
+def case_big(ctx, case):
+    """Scale regime: 100-300 agents, hundreds of add/remove/re-add operations (ids re-used by the same and by other objects), accessors
+    compared after every operation, error paths injected every 25 operations."""
+    rng = ctx.rng('big', case['i'])
+    core, envs, K = fixtures()
+    model = core.Model()
+    kind = rng.choice(['plain', 'plain', 'grid'])
+    env = model.environment
+    if kind == 'grid':
+        env = model.environment = envs.GridWorld(model, 9, 7)
+    n_ids = rng.choice([100, 160, 300])
+    universe = []
+    for j in range(n_ids + n_ids // 4):
+        a = core.Agent(f'id{j % n_ids}', model)          # a quarter of the ids exist twice (two objects, one id)
+        for T in K:
+            if rng.random() < 0.6:
+                a.add_component(T(a, model))
+        universe.append(a)
+    ref = {}
+    ops = 0
+
+    def add(a):
+        if kind == 'grid':
+            env.add_agent(a, rng.randint(0, 8), rng.randint(0, 6))
+        else:
+            env.add_agent(a)
+        ref[a.id] = a
+
+    def compare(what):
+        exp = list(ref.values())
+        ctx.ev()
+        ctx.count('accessor_comparisons')
+        got = env.get_agents()
+        if not (len(env) == len(exp) and same_objects(list(env), exp) and same_objects(got, exp)):
+            raise CaseViolation(f'{what}: len/iteration/get_agents disagree with the live agents ({len(exp)} live; len={len(env)}, '
+                                f'iter={len(list(env))}, listing={len(got)})', world=kind, ops=ops,
+                                listing_ids=[getattr(x, 'id', x) for x in got][:12], expected_ids=[x.id for x in exp][:12])
+
+    for a in rng.sample(universe, len(universe)):
+        if a.id not in ref:
+            add(a)
+            ops += 1
+            if ops % 10 == 0:
+                compare('while filling')
+            if ops in (9, 14, 22, 30, 45) and ref:           # some agents leave while the population is still small
+                gone = rng.choice(list(ref))
+                env.remove_agent(gone)
+                del ref[gone]
+    compare('after filling')
+    for _ in range(3 * n_ids):
+        ops += 1
+        x = rng.random()
+        if x < 0.5 and ref:
+            i = rng.choice(list(ref))
+            env.remove_agent(i)                    # removing a present agent always succeeds
+            old = ref.pop(i)
+            if rng.random() < 0.6:                 # the id is taken again at once: by the same object or by its twin
+                twins = [b for b in universe if b.id == i]
+                add(rng.choice(twins))
+        else:
+            free = [b for b in universe if b.id not in ref]
+            if free:
+                add(rng.choice(free))
+        compare('after add/remove churn')
+        for i in rng.sample(list(ref), min(3, len(ref))):
+            check(env.get_agent(i) is ref[i] and env.get_agent(i, True) is ref[i], f'get_agent({i!r}) returned the wrong object')
+        if ops % 25 == 0 and ref:
+            i = rng.choice(list(ref))
+            before = snapshot(model, universe[:40], K)
+            try:
+                add(next(b for b in universe if b.id == i)) if False else env.add_agent(ref[i], *((0, 0) if kind == 'grid' else ()))
+            except core.DuplicateAgentError:
+                ctx.count('probe_dup_same')
+            else:
+                raise CaseViolation('duplicate add accepted in a large environment')
+            check(before == snapshot(model, universe[:40], K), 'rejected duplicate add changed state')
+    ctx.count('big_environments')
+    ctx.count('big_ops', ops)
+    ctx.distinct(('big', kind, n_ids, case['i']))
+    if case['i'] < 1:
+        ctx.sample({'kind': 'big environment', 'world': kind, 'ids': n_ids, 'objects': len(universe), 'operations': ops})
+
+
 def run_case(ctx, case):
-    case_history(ctx, case)
+    (case_big if case.get('kind') == 'big' else case_history)(ctx, case)
 
 
 def run(ctx):
@@ -264,6 +349,9 @@ def run(ctx):
     for i in range(N_HIST[ctx.tier]):
         if ctx.mine(i) and not ctx.full():
             ctx.run_case({'kind': 'hist', 'i': i}, run_case)
+    for i in range(N_BIG[ctx.tier]):
+        if ctx.mine(i) and not ctx.full():
+            ctx.run_case({'kind': 'big', 'i': i}, run_case)
     for k, v in contracts.EVALS.items():
         ctx.count('contract:' + k, v)
 
